@@ -346,7 +346,11 @@ Record c14_case := mkCase {
   c_all : obs_res;                    (* get_all_segments_in_group('all') *)
   c_opt : obs_groups;                 (* groups after optimise_segment_groups() *)
   c_resolved_after : list obs_res;    (* the same queries afterwards (only when it returned) *)
-  c_opt2 : obs_groups                 (* after a second optimise_segment_groups() *)
+  c_opt2 : obs_groups;                (* after a second optimise_segment_groups() *)
+  (* get_ordered_segments_in_groups([g.id]) for every group: the ids of the listed segments, in the order listed;
+     before and after optimising; None = not asked (cells outside the property) *)
+  c_ordered : option (list obs_res);
+  c_ordered_after : option (list obs_res)
 }.
 
 Fixpoint obs_list_eqb (a b : list obs_res) : bool :=
@@ -360,6 +364,31 @@ Definition model_resolved (segs : list Z) (G : list group) : list obs_res :=
   map (fun g => obs_of_res (resolve segs (default_fuel G) G (gid g))) G.
 
 (* which optimiser the implementation is compared with: true = repaired, false = as shipped *)
+(* get_ordered_segments_in_groups([a]): the segments of the group, each ONCE, by ascending id *)
+Definition ordered_ids (segs : list Z) (fuel : nat) (G : list group) (a : string) : result (list Z) :=
+  match resolve segs fuel G a with
+  | Ret l => Ret (isortZ l)
+  | Err e => Err e
+  end.
+Definition obs_res_exact_eqb (a b : obs_res) : bool :=
+  match a, b with
+  | OList x, OList y => listZ_eqb x y
+  | OOther, _ | _, OOther => false
+  | OList _, _ | _, OList _ => false
+  | _, _ => true
+  end.
+Fixpoint obs_list_exact_eqb (a b : list obs_res) : bool :=
+  match a, b with
+  | [], [] => true
+  | x :: a', y :: b' => obs_res_exact_eqb x y && obs_list_exact_eqb a' b'
+  | _, _ => false
+  end.
+Definition ordered_ok (segs : list Z) (G : list group) (o : option (list obs_res)) : bool :=
+  match o with
+  | None => true
+  | Some l => obs_list_exact_eqb (map (fun g => obs_of_res (ordered_ids segs (default_fuel G) G (gid g))) G) l
+  end.
+
 Definition case_ok (fixed : bool) (c : c14_case) : bool :=
   let G := c_groups c in
   let f := default_fuel G in
@@ -367,9 +396,11 @@ Definition case_ok (fixed : bool) (c : c14_case) : bool :=
   let r1 := opt (c_segs c) f G in
   obs_list_eqb (model_resolved (c_segs c) G) (c_resolved c)
   && obs_res_eqb (obs_of_res (resolve (c_segs c) f G "all")) (c_all c)
+  && ordered_ok (c_segs c) G (c_ordered c)
   && obs_groups_eqb (obs_of_gres r1) (c_opt c)
   && match r1 with
      | Ret G1 => obs_list_eqb (model_resolved (c_segs c) G1) (c_resolved_after c)
+                 && ordered_ok (c_segs c) G1 (c_ordered_after c)
                  && obs_groups_eqb (obs_of_gres (opt (c_segs c) f G1)) (c_opt2 c)
      | Err _ => true
      end.
